@@ -163,6 +163,12 @@ func genericFor(id string, p *Prog, r *Report) {
 	if rr, ok := replScopes[id]; ok {
 		replacedFieldRule(p, r, rr.rule, rr.mods, rr.floor)
 	}
+	if id == "C01" || id == "C02" {
+		positiveAmountRule(p, r, map[string]string{"C01": "R01.16", "C02": "R02.9"}[id], modset("vault"), 8)
+	}
+	if id == "C13" {
+		positiveAmountRule(p, r, "R13.14", modset("locker"), 3)
+	}
 	if id == "C13" {
 		sideAgreementRule(p, r, "R13.6", modset("auction", "auctionsV2", "liquidation", "liquidationsV2", "collector", "esm", "vault", "lend"), 10)
 	}
